@@ -92,7 +92,7 @@ class EigWorld:
         return self._fresh('eig', a, b, a.shape[0])
 
 
-def sym_matrix(name, n, active, V=Sym.var, symmetric=True, diag_only=False):
+def sym_matrix(name, n, active, V=Sym.var, symmetric=True, diag_only=False, skip=()):
     """n x n ShimCSR with symbolic entries on active x active (symmetric), zero elsewhere"""
     rr, cc, dd = [], [], []
     vals = {}
@@ -100,6 +100,8 @@ def sym_matrix(name, n, active, V=Sym.var, symmetric=True, diag_only=False):
         for j in active:
             if diag_only and i != j:
                 continue
+            if (i, j) in skip or (symmetric and (j, i) in skip):
+                continue        # structurally zero entry
             key = (min(i, j), max(i, j)) if symmetric else (i, j)
             if key not in vals:
                 vals[key] = V('%s_%d_%d' % (name, key[0], key[1]))
